@@ -13,7 +13,7 @@ CLAIMED["C09"] = (
     "derivations and the SB3.1 KDF is proved equal to a term over the primitive symbols (key, IV, data passed unchanged to the right "
     "algorithm/mode; zero padding exactly where documented; SPSDKError exactly for illegal sizes; counter advances exactly, 32-bit field wraps); "
     "decrypt(encrypt(m)) = m with defaults on both sides follows as lemmas over those contracts and the inverse laws of the primitives. "
-    "That the primitives equal their standards is NOT proved (external C code): bounded known-answer vectors only.",
+    "That the primitives equal their standards is NOT proved (external C code): bounded known-answer vectors only. Added (round 3): Hash.update_int hashes the minimal big-endian encoding (bit lengths around every byte boundary up to 65 bits and 2048 bits, all four SHA algorithms, sign dropped; zero hashes nothing).",
     "Trusted: the assumed models of `cryptography`/`crcmod` calls in vf/extmodels.py (which exception for which argument size; results as "
     "uninterpreted functions with length laws and D(E(x)) = x), A-enc, A-smt.",
     "DESIGN.md 7 C09")
@@ -22,7 +22,7 @@ CLAIMED["C16"] = (
     "byte k = last child covering k, else binary, else fill pattern; error iff a child sticks out / siblings overlap / negative offset) "
     "by modular induction over tree depth: children are abstract images known only through these same contracts (ghost length / bytes / "
     "validity), so depth is unbounded. Width is instantiated for 0..3 children per node (loops unrolled completely per width); wider nodes, "
-    "and BIN/HEX/S-record save/load (bincopy), are bounded checks only. One recorded known finding (empty child inside a sibling).",
+    "and BIN/HEX/S-record save/load (bincopy), are bounded checks only. One recorded known finding (empty child inside a sibling). Added (round 3, bounded): nodes with own binary, fill pattern and larger size / alignment in the BIN/HEX/S19 save-load sweep.",
     "Trusted: A-enc, A-smt; align/align_block/BinaryPattern.get_block through their own verified contracts (C20). 'rand' pattern excluded.",
     "DESIGN.md 7 C16")
 CLAIMED["C11"] = (
@@ -31,7 +31,7 @@ CLAIMED["C11"] = (
     "(normal/reversed sub-register order) registers against one abstract bit-vector view, and the frame obligation 'get_registers does "
     "not change the object' are discharged for all values. Layouts are enumerated: quick = 44 boundary-rich (offset,width) pairs in a "
     "32-bit register + boundary pairs at 8/16/64 bits, thorough = all 528 pairs; groups of 2/3 x 32 bits; reversed registers 8..64 bits. "
-    "Config/YAML/string paths and export/parse of register files are not covered deductively here (see C12).",
+    "Config/YAML/string paths and export/parse of register files are not covered deductively here (see C12). Widened: grouped registers with alternative widths (a shorter value replaces the whole register).",
     "Trusted: A-enc, A-smt, A-struct (from_bytes(to_bytes(v)) = v positional-notation identities), layouts outside the enumerated set "
     "(symbolic offset/width arithmetic is not decided by z3: stated in DESIGN 7 C11).",
     "DESIGN.md 7 C11")
@@ -40,7 +40,7 @@ CLAIMED["C19"] = (
     "bitwise, size suffixes, comparisons, logical operators, parentheses, address ranges) is a unit located by its production string and "
     "proved to return what the language semantics prescribe for all operand values; unsupported constructs (sizeof, if/else) are proved to "
     "raise; the precedence table is a data obligation against the documented C-like table; SB21Helper._fill_memory is proved to produce one "
-    "FILL command with the given address, the whole range length and the pattern as written. Lexing and the LALR automaton are external (sly).",
+    "FILL command with the given address, the whole range length and the pattern as written. Lexing and the LALR automaton are external (sly). Widened: && and || on C-like truth values (any integer operands).",
     "Trusted: A-sly (sly builds the parser the grammar strings and precedence denote and calls exactly the action of each production), A-enc, "
     "A-smt. Symbol tables, sources, key blobs and the remaining statement actions are covered by the bounded seeded-program sweep only.",
     "DESIGN.md 7 C19")
@@ -49,7 +49,7 @@ CLAIMED["C17"] = (
     "(SBV2xAdvancedParams, OTFAD KeyBlob, BEE KIB, the MBI counter-IV accessor, random_bytes itself), the postcondition 'if the caller gave "
     "none, the field holds a value drawn during this call' — discharged from the real constructor bodies; data obligations state that the "
     "BootImageV20/V21 default for advanced_params and the MBI class-level member are not definition-time objects. IEE/BEE region/HAB "
-    "constructors and the config-file paths are covered only by the bounded two-artifact comparison and the definition-time randomness scan.",
+    "constructors and the config-file paths are covered only by the bounded two-artifact comparison and the definition-time randomness scan. Added: IeeKeyBlob.__init__ (keys given or drawn inside the call, sizes per mode), Mbi_MixinCtrInitVector.mix_load_from_config (no IV in the configuration = a new one, whatever the object held).",
     "Trusted: A-rng (the OS generator is fresh per call and per process; nothing is claimed across interpreter restarts beyond that), A-enc, A-smt.",
     "DESIGN.md 7 C17")
 CLAIMED["C18"] = (
@@ -67,7 +67,7 @@ CLAIMED["C04"] = (
     "CmdJump construction/export/parse (stack pointer present iff given, also for SP = 0), CmdLoad.export (zero padding to 16, count, CRC-32/MPEG-2 "
     "over the padded data), ImageHeaderV2.export field by field (versions incl. component != product, flags, block counts, build number) are "
     "discharged for all field values. Section level (AES-CTR block counters, HMAC table) and whole-image level are bounded checks only; "
-    "the key-blob / signature / KEK clauses rest on C09 and the primitives.",
+    "the key-blob / signature / KEK clauses rest on C09 and the primitives. Added: BootSectionV2.export against the ROM model (header announces HMAC and block counts, every command block encrypted with the counter of its own file position, HMAC entries cover all command blocks, counter continues at the next position) with abstract commands.",
     "Trusted: A-enc, A-smt, A-struct (struct pack/unpack as positional notation), CRC as an uninterpreted function (C09). BootSectionV2.export/"
     "parse, BootImageV2x.export/parse and the remaining command classes are NOT under contract (bounded round trips only); known finding C04-KF1: "
     "BootImageV21.parse reads only the first boot section.",
@@ -88,7 +88,7 @@ CLAIMED["C01"] = (
     "each get_* reader returns its field, and a lemma shows the fields are disjoint so readers invert create_flags; update_ivt writes exactly "
     "the four words (total length, flags, CRC/cert offset — 0 for plain images —, load address) and frames every other byte; clean_ivt zeroes "
     "exactly those words; Mbi_ExportMixinAppTrustZoneCertBlock.disassemble_image restores the application bytes before the certificate offset. "
-    "Whole-image export/parse per composition is a bounded check over the key-less compositions of the live database (known finding C01-KF1). Added: certificate-block-v1 signed images (RSA-2048 repository test keys, with and without relocation table) are decoded by hand in a bounded sweep - IVT total length / certificate offset words against independently computed positions, relocation entries, independent RSA signature verification.",
+    "Whole-image export/parse per composition is a bounded check over the key-less compositions of the live database (known finding C01-KF1). Added: certificate-block-v1 signed images (RSA-2048 repository test keys, with and without relocation table) are decoded by hand in a bounded sweep - IVT total length / certificate offset words against independently computed positions, relocation entries, independent RSA signature verification. Added (round 3): MultipleImageTable.export - images padded to 4 then 16-byte entries then header; header marker/version/count/pointer; every entry's source range holds exactly its image and starts where the previous padded image ends - for 1..3 entries, image lengths of every residue mod 4, arbitrary contents and addresses.",
     "Trusted: A-enc, A-smt, A-struct. Not under contract: the other export mixins' collect_data/disassemble_image, relocation tables (design-time "
     "finding #16, not checked here), TrustZone/key-store contents, certificate blocks (C03), config/CLI front ends.",
     "DESIGN.md 7 C01")
@@ -97,7 +97,7 @@ CLAIMED["C02"] = (
     "AES-ECB(user key, 0^16) (or empty without key), and Mbi_ExportMixinAppTrustZoneCertBlockEncrypt.encrypt applies AES-CTR with the stored IV "
     "under the key the ROM derives — AES-ECB(user key, 01 0^15 02 0^15) unless a KEYSTORE key store supplies the key — in both directions; the "
     "key derivations and CRC parameters themselves are proved in C09. The CRC word is checked by a bounded independent CRC over every key-less "
-    "CRC composition of the live database. Signature coverage, certificate chains, manifests and HMAC splicing are NOT decided here.",
+    "CRC composition of the live database. Signature coverage, certificate chains, manifests and HMAC splicing are NOT decided here. Added (round 3): RootKeyRecord._calculate_flags (cert block v2.1) = CA bit, index of the root that signs, number of roots, curve - for 1..4 roots and every index.",
     "Trusted: primitives as uninterpreted functions (A-crypto-fun); 'tampering is detected' rests on them (A-crypto-sec, not claimed); A-enc, A-smt. "
     "Mbi_ExportMixinRsaSign/EccSign.sign, finalize (HMAC/key-store splice), post_encrypt, manifest mixins and CertBlockV1 are not under contract.",
     "DESIGN.md 7 C02")
@@ -115,7 +115,7 @@ CLAIMED["C10"] = (
     "MbootSerialProtocol.read — against a ghost device whose device-to-host stream is universally quantified (any bytes, any length, so every "
     "corrupted byte, truncation or missing response is inside the quantifier) — returns a payload only for a frame of the declared length whose "
     "CRC matches, for DATA and CMD frames alike, raises only the documented exceptions otherwise, and always acknowledges the frame. "
-    "USB-HID framing, McuBoot operations (data phases, status mirroring), SDP/SDPS and 'within bounded time' are NOT decided here. Added: McuBoot.read_memory (USB-HID chunked path for packet sizes 32/56/1016 and the single-command path, any address, lengths 0..64 KiB, loop by inductive invariant): success status implies exactly the requested device bytes, whatever is returned is a prefix of the device bytes - against an ASSUMED device model (ghost memory; _process_cmd / _read_data behave as the reference bootloader).",
+    "USB-HID framing, McuBoot operations (data phases, status mirroring), SDP/SDPS and 'within bounded time' are NOT decided here. Added: McuBoot.read_memory (USB-HID chunked path for packet sizes 32/56/1016 and the single-command path, any address, lengths 0..64 KiB, loop by inductive invariant): success status implies exactly the requested device bytes, whatever is returned is a prefix of the device bytes - against an ASSUMED device model (ghost memory; _process_cmd / _read_data behave as the reference bootloader). Added (round 3): USB-HID report framing - _create_frame = id, pad, 16-bit LE length, payload; _parse_frame hands out exactly the announced payload for every 16-bit length, zero length = abort.",
     "Trusted: CRC as an uninterpreted function (C09), assumed contracts for the wall-clock wait loop and for response decoding, frame layout "
     "verified for payload lengths 0/1/4/32 and assumed for the others at call sites, A-enc, A-smt, A-struct. Known design-time findings #28/#29 "
     "(partial data with SUCCESS status; struct.error from response constructors) are not covered by a check. Assumed contracts (device model): McuBoot._process_cmd, McuBoot._read_data - a data phase that ends with SUCCESS but delivered fewer bytes than announced is outside this model: the bounded fault-injection sweep (bounded/C10.py) shows it is mishandled - known finding C10-KF1.",
@@ -144,7 +144,7 @@ CLAIMED["C14"] = (
     "three-segment layouts with every static/floating pattern after a static first segment, all offsets, lengths and alignments (1/4/1024) "
     "symbolic; the data obligations the theorem assumes (first segment static, static offsets strictly increasing, positive alignments) are "
     "checked exhaustively over every (family, memory type) of the live database. Export/parse of the merged image, gap filling, init_offset "
-    "selection and content-search parsing are NOT decided here (C16 gives the composition theorem they rest on). Added (bounded): every fixed-size segment class of every layout comes back whole from parse_binary (random payloads; FCB classes with a tagged payload).",
+    "selection and content-search parsing are NOT decided here (C16 gives the composition theorem they rest on). Added (bounded): every fixed-size segment class of every layout comes back whole from parse_binary (random payloads; FCB classes with a tagged payload). Added (round 3): BootableImage._update_segments (excluded iff fixed offset in front of the initial offset; floating segments never) and the init_offset setter (never negative, the closest fixed segment offset at or behind the request) for 3-segment layouts with any mix of fixed/floating segments.",
     "Trusted: A-enc, A-smt; segments are abstract (offset rule, alignment, length). Layouts longer than three segments follow the same recursion "
     "(not instantiated).",
     "DESIGN.md 7 C14")
@@ -154,7 +154,7 @@ CLAIMED["C06"] = (
     "Verifier.add_record_bit_range records ERROR exactly when the value is missing or outside [0, 2^bits) — with C20's truthful check_range this "
     "is what makes 'a valid image is never reported as erroneous' hold for the SW/fuse version records (repaired defect). Container, image-array, "
     "signature-block and SRK layouts, hashing, signing, offsets and disjointness are NOT under contract: bounded build/parse/verify of the "
-    "repository's example configurations only. Added: ImageArrayEntry.get_hash_from_flags returns the algorithm the entry declares for every computable hash tag (SHA-256/384/512, SM3) of container versions 1 and 2, and create_flags packs type / core / hash / encrypted / boot flags into their fields.",
+    "repository's example configurations only. Added: ImageArrayEntry.get_hash_from_flags returns the algorithm the entry declares for every computable hash tag (SHA-256/384/512, SM3) of container versions 1 and 2, and create_flags packs type / core / hash / encrypted / boot flags into their fields. Added (round 3): SRKRecordBase.parameter_lengths (first = modulus / X length, second = exponent / Y length, two LE16) for every key-size code, _crypto_params_length.",
     "Trusted: A-enc, A-smt. Everything outside the two units above is unverified here; 'corruption is reported' rests on the primitives (not claimed).",
     "DESIGN.md 7 C06")
 CLAIMED["C12"] = (
@@ -163,7 +163,7 @@ CLAIMED["C12"] = (
     "untouched (C11 units, re-verified in this check's closure), and a register's byte image has its width in the area's endianness. Data "
     "(bounded, complete over the live database): every register file satisfies the theorem's precondition (fields inside the register, reset "
     "and enum values fit). Area level (bounded, every family): PFR CMPA/CFPA fixed size, parse/export identity, binary-config-binary with "
-    "seeded values (known finding C12-KF1). Templates / YAML schemas / IFR, BCA, FCF, FCB, XMCD, TrustZone, fuses, memcfg are not covered.",
+    "seeded values (known finding C12-KF1). Templates / YAML schemas / IFR, BCA, FCF, FCB, XMCD, TrustZone, fuses, memcfg are not covered. Added: PFR computed inverse fields (high half / lower 8 bits: stale bits cleared); bounded: XMCD header size field against the exported block over the configuration types of the live database.",
     "Trusted: A-enc, A-smt, A-struct; _RegistersBase.export/parse, BaseConfigArea and the computed-field methods are NOT under contract.",
     "DESIGN.md 7 C12")
 CLAIMED["C08"] = (
@@ -188,7 +188,7 @@ CLAIMED["C07"] = (
     "Everything else of the property - CSF commands and offsets, CMS signatures verified independently, SRK table/fuses, AES-CCM "
     "encryption, parse round trip, DCD/XMCD, the BDT length itself - is NOT decided deductively: a bounded sweep builds authenticated and plain "
     "images (RSA-2048 repository test keys) over three layouts x application lengths dense around the 16 B / 4 KiB boundaries and decodes "
-    "them by hand incl. an independent CMS digest/signature check, labelled bounded.",
+    "them by hand incl. an independent CMS digest/signature check, labelled bounded. Added: plain-image boot data, IVT / boot-data binary layouts with parse-inverts-export lemmas, SRK table items (ECC P-256/384/521, RSA) export layouts with parse-inverts-export lemmas; bounded: encrypted example image with every MAC length decrypted independently with AES-CCM.",
     "Trusted: A-enc, A-smt; BinaryImage.__len__/export and align_block through their verified contracts (C16/C20). Not under contract: "
     "CsfHabSegment/BdtHabSegment/Dcd/Xmcd.load_from_config, HabContainer.*, image/segments.py, image/commands.py, crypto/cms.py, secret.py "
     "(A-crypto-fun, A-crypto-sec, A-pki). Encrypted images, ECC keys, SRK tables other than the test table: not exercised even bounded.",
